@@ -182,6 +182,16 @@ func RunCheck(prop string, opt CheckOptions) *CheckResult {
 		}
 		defer os.RemoveAll(scratch)
 		pfam := ParamFamily()
+		if prop != "C15" {
+			// members with a request body exist for the handler stage ordering of C15 only
+			var nb []ParamSet
+			for _, q := range pfam {
+				if !q.Body {
+					nb = append(nb, q)
+				}
+			}
+			pfam = nb
+		}
 		if opt.Tier == "thorough" && !pc.FamilyNoSampled {
 			pfam = append(pfam, ParamFamilySampled(16)...)
 		}
